@@ -99,6 +99,10 @@ func (c *Ctx) Prove(s *State, name string, goal *Term, onSat func(val func(*Term
 		return true
 	}
 	sv := c.e().solver
+	if dl := c.e().deadline; !dl.IsZero() && time.Now().After(dl.Add(30*time.Second)) {
+		c.res.Inconcl = append(c.res.Inconcl, name+": not decided: the item's time budget was exhausted")
+		return false
+	}
 	ng := Not(goal)
 	r := sv.CheckFlat(append(sliceFor(s.pc, []*Term{ng}), ng)...)
 	if r == "sat" {
@@ -359,7 +363,7 @@ func workerMain(d *Driver, tier string, seed int64, shard, only string) int {
 		return 2
 	}
 	enc.Encode(map[string]any{"load_s": c.w.loadS, "init_steps": c.w.nInit})
-	items := d.Items(c)
+	items := interleave(d.Items(c))
 	// cost-balanced round robin: items are assigned by index
 	for i, it := range items {
 		if i%sn != si {
@@ -391,7 +395,7 @@ func (c *Ctx) runItem(it Item) *ItemResult {
 	e.funcs = map[string]int{}
 	crcLog = nil
 	t0 := time.Now()
-	budget := 90 * time.Second
+	budget := 60 * time.Second
 	if c.thorough() {
 		budget = 900 * time.Second
 	}
@@ -482,7 +486,7 @@ func parentMain(d *Driver, tier string, seed int64, nworkers int, only string) i
 				args = append(args, "-only", only)
 			}
 			cmd := exec.Command(exe, args...)
-			limit := 20 * time.Minute
+			limit := 12 * time.Minute
 			if tier == "thorough" {
 				limit = 4 * time.Hour
 			}
@@ -721,3 +725,29 @@ func trunc(xs []string, n int) []string {
 }
 
 var tvCount int
+
+// interleave reorders items round-robin over their leading group (module / kind prefix), so that a run cut
+// short by the time budget has touched every group instead of only the alphabetically first ones.
+func interleave(items []Item) []Item {
+	groups := map[string][]Item{}
+	var order []string
+	for _, it := range items {
+		g := it.ID
+		if i := strings.IndexAny(g, "./"); i >= 0 {
+			g = g[:i]
+		}
+		if _, ok := groups[g]; !ok {
+			order = append(order, g)
+		}
+		groups[g] = append(groups[g], it)
+	}
+	var out []Item
+	for k := 0; len(out) < len(items); k++ {
+		for _, g := range order {
+			if k < len(groups[g]) {
+				out = append(out, groups[g][k])
+			}
+		}
+	}
+	return out
+}
